@@ -87,6 +87,7 @@ def jobs(tier, seed):
     D = {"*": [0, 2]}
     shapes = {
         "two-files": ([F([S(1), S(1)]), F([S(1)])], {"stop": "sym", "out_dom": D}),
+        "two-files-unsorted": ([F([S(1), S(1)]), F([S(1)])], {"out_dom": D, "filenames": ["zeta.feature", "alpha.feature"]}),
         "rules": ([F([S(1), R([S(1), S(1)]), R([S(1)])])], {"out_dom": D}),
         "outline": ([F([O(1, [(2, []), (1, [])]), S(1)])], {"stop": "sym", "out_dom": D}),
         "outline-empty-examples": ([F([O(1, [(2, []), (0, [])]), S(1)])], {"out_dom": D}),
